@@ -761,7 +761,21 @@ impl<'a, 'tcx> Cx<'a, 'tcx> {
                         }
                     }
                     Const::Ty(_, ct) => {
-                        j.str("tyconst", &format!("{:?}", ct).chars().take(60).collect::<String>());
+                        // pattern constants (`match s { "t" => .. }`, `'x' => ..`) are type-level valtrees
+                        let mut done = false;
+                        if let Some(v) = ct.try_to_value() {
+                            if let Some(bytes) = v.try_to_raw_bytes(tcx) {
+                                j.str("v", &String::from_utf8_lossy(bytes));
+                                j.boolean("slice", true);
+                                done = true;
+                            } else if let Some(si) = v.try_to_leaf() {
+                                emit_const_value(tcx, j, ConstValue::Scalar(mir::interpret::Scalar::Int(si)), ty);
+                                done = true;
+                            }
+                        }
+                        if !done {
+                            j.str("tyconst", &format!("{:?}", ct).chars().take(60).collect::<String>());
+                        }
                     }
                 }
             }
